@@ -146,20 +146,20 @@ def stepCursor (p : PMap) (fwd : Bool) (i : Nat) : Option Nat :=
 
 /-- `weakWalk fwd fuel p cursor script`: `script` gives, per visit, the writers that run during/after
 the consumer call and whether the consumer returns `false` (stop).  When the script is exhausted no
-further interference happens.  Returns the final map and the visited elements (ids and key/value). -/
-def weakWalk (fwd : Bool) : Nat → PMap → Option Nat → List (List MOp × Bool) → PMap × List (Nat × (Nat × Nat))
-  | 0, p, _, _ => (p, [])
-  | _ + 1, p, none, _ => (p, [])
+further interference happens.  Returns the final map, the visited elements (identity and key/value
+as passed to the consumer) and whether `ForEach` ran to completion (returned `true`). -/
+def weakWalk (fwd : Bool) : Nat → PMap → Option Nat → List (List MOp × Bool) → PMap × List (Nat × (Nat × Nat)) × Bool
+  | 0, p, _, _ => (p, [], false)
+  | _ + 1, p, none, _ => (p, [], true)
   | f + 1, p, some i, script =>
     match p.heap[i]? with
-    | none => (p, [])
+    | none => (p, [], false)
     | some n =>
-      let (ops, stop) := script.headD ([], false)
-      let p' := applyOps p ops
-      if stop then (p', [(i, (n.key, n.val))])
+      let p' := applyOps p (script.headD ([], false)).1
+      if (script.headD ([], false)).2 then (p', [(i, (n.key, n.val))], false)
       else
         let r := weakWalk fwd f p' (stepCursor p' fwd i) script.tail
-        (r.1, (i, (n.key, n.val)) :: r.2)
+        (r.1, (i, (n.key, n.val)) :: r.2.1, r.2.2)
 
 end PMap
 
